@@ -132,6 +132,11 @@ pub trait Part: Sync {
     fn exhaustive(&self) -> bool {
         true
     }
+    /// a supporting pass adds violations if it finds any but decides nothing (e.g. a sampled, free-running
+    /// run); it is listed separately in the evidence and does not enter the `exhaustive` flag
+    fn supporting(&self) -> bool {
+        false
+    }
     /// whether run_part re-runs a sample of cases to check that observations are reproducible
     fn rerun_check(&self) -> bool {
         true
@@ -163,6 +168,8 @@ pub struct PartReport {
     pub machinery_errors: Vec<String>,
     pub wall_s: f64,
     pub extra: Map<String, Value>,
+    #[serde(default)]
+    pub supporting: bool,
 }
 
 fn fnv(s: &str) -> u64 {
@@ -265,6 +272,7 @@ pub fn run_part<P: Part>(p: &P, cfg: &Cfg) -> PartReport {
         bound: p.bound(cfg),
         cases: n as u64,
         exhaustive: p.exhaustive() && !capped.load(Ordering::Relaxed),
+        supporting: p.supporting(),
         ..Default::default()
     };
     let mut all: HashSet<u64> = HashSet::new();
@@ -406,7 +414,9 @@ pub fn finish(cfg: &Cfg, level: &str, parts: Vec<PartReport>, assumptions: Vec<S
         tot.4 += rep.transitions;
         tot.5 += rep.states;
         tot.6 += rep.validated;
-        exhaustive &= rep.exhaustive && rep.run == rep.cases;
+        if !rep.supporting {
+            exhaustive &= rep.exhaustive && rep.run == rep.cases;
+        }
         for s in rep.samples.iter().take(2) {
             samples.push(json!({"part": rep.name, "case": s}));
         }
@@ -420,6 +430,7 @@ pub fn finish(cfg: &Cfg, level: &str, parts: Vec<PartReport>, assumptions: Vec<S
             "violating_cases": rep.violations.len(), "exhaustive_within_bound": rep.exhaustive && rep.run == rep.cases,
             "distinct_outcomes": rep.outcomes.len(), "outcomes": rep.outcomes, "observations_not_judged": rep.notes,
             "replay_determinism_checks": rep.determinism_checks, "wall_s": (rep.wall_s * 100.0).round() / 100.0,
+            "supporting_pass_only": rep.supporting,
         });
         for (k, v) in &rep.extra {
             pv[k] = v.clone();
